@@ -314,12 +314,13 @@ func render(d *Node) renderings {
 
 // Case is one (type, document) pair under one check; it is also the replay artefact.
 type Case struct {
-	Check   string      `json:"check"` // fmt | case | std | env
+	Check   string      `json:"check"` // fmt | case | std | env | entry | entrycase
 	Spec    *StructSpec `json:"spec,omitempty"`
 	Doc     *Node       `json:"doc,omitempty"` // keys spelled as declared in the tags
 	Variant int         `json:"variant"`       // spelling of the struct-field keys in the loaded text
 	Sig     string      `json:"sig"`
 	Env     *EnvCase    `json:"env,omitempty"`
+	Entry   *EntryCase  `json:"entry,omitempty"`
 	TypeStr string      `json:"type,omitempty"`
 	Texts   any         `json:"texts,omitempty"`
 	strict  bool
@@ -490,6 +491,10 @@ func runCase(c *Case) result {
 		return r
 	case "env":
 		return checkEnv(c.Env)
+	case "entry":
+		return checkEntry(c.Entry, c.Variant)
+	case "entrycase":
+		return checkEntryCase(c.Entry, c.Variant)
 	}
 	panic("unknown check " + c.Check)
 }
